@@ -9,6 +9,7 @@ Oracle: background thread alive and never spinning; a probe timer fires on time 
 all sessions released within the longest timeout; a well-formed transfer in each role then
 completes.  DESIGN.md 5/C07.
 """
+import collections
 from hypothesis import strategies as st
 
 from vlib import world as W
@@ -81,8 +82,33 @@ def _strategy(dll):
                     st.sampled_from(["rts", "rts", "rts_x", "bam"]), st.integers(61, 400) if fd else st.integers(9, 80))
     # (a tuple mapped to a dict rather than fixed_dictionaries: hypothesis.fuzz_one_input rejects every byte string
     # for fixed_dictionaries with more than three keys in this Hypothesis version - see DESIGN.md 8)
-    keys = ("frames", "own", "max_cmdt", "grants", "eps", "reply_lat", "tx_time")
-    return st.tuples(
+    # reactive injection: when the stack itself transmits its n-th frame of a class (its own time-out abort, a data frame, an
+    # RTS/BAM announcement, any TP frame), the addressed node - or a node claiming to be it - answers `delay` later with an
+    # abort / CTS / end-of-message acknowledge for that very session: the answer arrives while the stack is still writing
+    # the frame (tx_time), right after it, or a little later
+    react = st.builds(lambda cls, nth, delay, kind, n, nx: {"cls": cls, "nth": nth, "delay": delay, "kind": kind, "n": n, "nx": nx},
+                      st.sampled_from(["abort", "abort", "dt", "dt", "rts", "cm", "any"]), st.sampled_from([1, 1, 1, 2, 3, 4]),
+                      st.sampled_from([0.0, 0.0, 0.0001, 0.0003, 0.001, 0.003]), st.sampled_from(["abort", "abort", "cts", "ack"]),
+                      st.sampled_from([0, 1, 2, 255]), st.sampled_from([0, 1, 2, 3, 255]))
+    keys = ("frames", "own", "max_cmdt", "grants", "eps", "reply_lat", "tx_time", "reacts")
+    # structured "race" cases: one or two own transfers, slow frame writes, and one or two reactions that hit the stack while
+    # it is writing a frame of that very session (the general strategy reaches this shape too rarely)
+    race = st.tuples(
+        st.lists(_frames(fd), min_size=1, max_size=3),
+        st.lists(st.builds(lambda t, kind, n: {"t": t, "kind": kind, "n": n}, st.sampled_from([0.0, 0.001, 0.05]),
+                           st.sampled_from(["rts", "rts", "rts_x", "rts_x", "bam"]), st.integers(61, 300) if fd else st.integers(9, 60)),
+                 min_size=1, max_size=2),
+        st.sampled_from([1, 2, 255]),
+        st.lists(st.sampled_from([1, 2, 255]), min_size=1, max_size=2),
+        st.lists(st.sampled_from([0.0, 1e-5]), min_size=1, max_size=2),
+        st.sampled_from([[0.001, 0.003], [0.02]]),
+        st.sampled_from([0.0005, 0.002, 0.002]),
+        st.lists(st.builds(lambda cls, nth, delay, kind, n, nx: {"cls": cls, "nth": nth, "delay": delay, "kind": kind, "n": n, "nx": nx},
+                           st.sampled_from(["abort", "abort", "dt", "rts", "cm"]), st.sampled_from([1, 1, 2, 3]),
+                           st.sampled_from([0.0, 0.0001, 0.0003]), st.sampled_from(["abort", "abort", "cts", "ack"]),
+                           st.sampled_from([0, 1, 2, 255]), st.sampled_from([0, 1, 2, 3, 255])), min_size=1, max_size=2),
+    ).map(lambda t: dict(zip(keys, t), dll=dll))
+    general = st.tuples(
         st.lists(_frames(fd), min_size=1, max_size=60),
         st.lists(own, max_size=3),
         st.sampled_from([1, 2, 255]),
@@ -90,7 +116,9 @@ def _strategy(dll):
         st.lists(st.sampled_from([0.0, 1e-5, 1e-3]), min_size=1, max_size=2),
         st.sampled_from([[0.001, 0.003], [0.02], [0.05, 0.1]]),
         st.sampled_from([0.0, 0.0, 0.0005, 0.002]),          # time a send call of the job thread takes (driver write)
+        st.lists(react, max_size=2),
     ).map(lambda t: dict(zip(keys, t), dll=dll))
+    return st.one_of(general, general, general, race)
 
 
 class C07:
@@ -99,7 +127,11 @@ class C07:
     TECHNIQUE = ("grammar-based fuzzing with Hypothesis: protocol-aware frame sequences injected in virtual time while own "
                  "transfers run; liveness (thread alive, spin watchdog), timer, release and follow-up oracles")
     RULE = ("Hypothesis draws a sequence of 1..60 frames from a protocol-aware alphabet (see module docstring) with gaps "
-            "{0,1 ms,40 ms,0.2,0.5,0.76,1.06,1.26,3.1 s} and 0-3 own transfers to a conforming reference peer; after the traffic "
+            "{0,1 ms,40 ms,0.2,0.5,0.76,1.06,1.26,3.1 s} and 0-3 own transfers to a conforming reference peer, a node that never answers or everybody (frame writes of the stack "
+            "take 0 / 0.5 / 2 ms), plus 0-2 REACTIONS: when the stack transmits its n-th abort / data frame / announcement, the "
+            "addressed node (255 for broadcasts) answers 0..3 ms later with an abort, CTS or end-of-message acknowledge for that "
+            "very session, i.e. while the stack is still writing the frame or right after; one case in four is a structured "
+            "'race' of this shape; after the traffic "
             "plus 3.5 s the oracle requires: job thread alive and no busy spin at any point, a probe timer fires within its "
             "period + scheduling latency, session tables empty (when readable), every pair / all 8+4 FD sessions accept a send, "
             "and one well-formed transfer in each role (stack->peer RTS/CTS and BAM, peer->stack RTS/CTS and BAM) completes intact; "
@@ -110,7 +142,7 @@ class C07:
         "(largest legitimate count is about 255 packets x 12 reads per pass)",
         "own transfers hit by spoofed frames may fail; only liveness, release and later usability are judged",
     ]
-    shrink_lists = ("frames", "own")
+    shrink_lists = ("frames", "own", "reacts")
     shrink_min = {"frames": 1}
 
     def strategy(self, tier):
@@ -207,6 +239,49 @@ class C07:
                 if ps is not None:
                     peak[0] = max(peak[0], ps[0] + ps[1])
 
+            # reactive injection (see _strategy)
+            seen = collections.Counter()
+            reacts = [dict(r) for r in p.get("reacts", [])]
+
+            def tap(e):
+                if e.node != "S" or not reacts:
+                    return
+                f = R.id_fields(e.can_id)
+                cm_pf, dt_pf = (R.FD_CM_PF, R.FD_DT_PF) if fd else (R.TP_CM_PF, R.TP_DT_PF)
+                if f["pf"] not in (cm_pf, dt_pf) or len(e.data) < 1:
+                    return
+                ctrl = ((e.data[0] & 0xF) if fd else e.data[0]) if f["pf"] == cm_pf else None
+                classes = ["any"]
+                if f["pf"] == dt_pf:
+                    classes.append("dt")
+                else:
+                    classes.append("cm")
+                    if ctrl == (R.FD_ABORT if fd else R.ABORT):
+                        classes.append("abort")
+                    if ctrl in ((R.FD_RTS, R.FD_BAM) if fd else (R.RTS, R.BAM)):
+                        classes.append("rts")
+                for c in classes:
+                    seen[c] += 1
+                for r in reacts:
+                    if r.get("done") or r["cls"] not in classes or seen[r["cls"]] != r["nth"]:
+                        continue
+                    r["done"] = True
+                    da = f["ps"]
+                    src = da if da != 255 else 255
+                    sess = (e.data[0] >> 4) if fd else 0
+                    pg = R.pgn_from_le(e.data[-3:]) if (f["pf"] == cm_pf and len(e.data) >= 8) else PGN_OWN
+                    if fd:
+                        body = {"abort": R.fd_abort(sess, 3, pg), "cts": R.fd_cts(sess, r["nx"], r["n"], pg),
+                                "ack": R.fd_eoma(sess, 100, 2, pg)}[r["kind"]]
+                        pf = R.FD_CM_PF
+                    else:
+                        body = {"abort": R.tp_abort(3, pg), "cts": R.tp_cts(r["n"], r["nx"], pg),
+                                "ack": R.tp_eom_ack(30, 5, pg)}[r["kind"]]
+                        pf = R.TP_CM_PF
+                    cid = R.mk_id(7, 0, pf, SA_S, src)
+                    w.sim.schedule(w.sim.now + r["delay"], (lambda cid=cid, body=body: raw.send(cid, bytes(body), ext=True, fd=fd)))
+            w.bus.taps.append(tap)
+
             for fr in p["frames"]:
                 t += fr["gap"]
                 w.at(t, inject(fr))
@@ -234,6 +309,7 @@ class C07:
             t_end = max(t + 1.0 + 3.5, t_rel)
             w.run_until(w.t0 + t_end)
             n_swallowed = len(s.swallowed)
+            del reacts[:]             # the follow-up traffic is well-formed: nobody interferes any more
             # (b) probe timer
             fired = []
             t_reg = w.sim.now
